@@ -253,6 +253,34 @@ class PathInterp:
                     self._store(t, v, ev, st)
                 return
             v0 = st.value
+            tuples = ev.__dict__.setdefault('_tuples', {})
+            # a name bound to a literal tuple (an expanded helper's tuple parameter): remembered element-wise
+            if len(st.targets) == 1 and isinstance(st.targets[0], ast.Name) and isinstance(v0, (ast.Tuple, ast.List)) \
+                    and not any(isinstance(e_, ast.Starred) for e_ in v0.elts):
+                tuples[st.targets[0].id] = [ev.ev(e_) for e_ in v0.elts]
+                return
+            if len(st.targets) == 1 and isinstance(st.targets[0], (ast.Tuple, ast.List)) and isinstance(v0, ast.Name) and v0.id in tuples \
+                    and len(tuples[v0.id]) == len(st.targets[0].elts):
+                for t, v in zip(st.targets[0].elts, tuples[v0.id]):
+                    self._store(t, v, ev, st)
+                return
+            if len(st.targets) == 1 and isinstance(st.targets[0], (ast.Tuple, ast.List)) and isinstance(v0, (ast.ListComp, ast.GeneratorExp)) \
+                    and len(v0.generators) == 1 and not v0.generators[0].ifs and isinstance(v0.generators[0].iter, ast.Name) \
+                    and v0.generators[0].iter.id in tuples and len(tuples[v0.generators[0].iter.id]) == len(st.targets[0].elts) \
+                    and isinstance(v0.generators[0].target, ast.Name):
+                g = v0.generators[0]
+                saved = ev.env.get(g.target.id)
+                vals = []
+                for val_ in tuples[g.iter.id]:
+                    ev.env[g.target.id] = val_
+                    vals.append(ev.ev(v0.elt))
+                if saved is None:
+                    ev.env.pop(g.target.id, None)
+                else:
+                    ev.env[g.target.id] = saved
+                for t, v in zip(st.targets[0].elts, vals):
+                    self._store(t, v, ev, st)
+                return
             if len(st.targets) == 1 and isinstance(st.targets[0], (ast.Tuple, ast.List)) and isinstance(v0, (ast.ListComp, ast.GeneratorExp)) \
                     and len(v0.generators) == 1 and not v0.generators[0].ifs and isinstance(v0.generators[0].iter, (ast.Tuple, ast.List)) \
                     and len(v0.generators[0].iter.elts) == len(st.targets[0].elts) and isinstance(v0.generators[0].target, ast.Name):
